@@ -30,6 +30,20 @@ pub struct Wide {
     b: i16,
 }
 
+/// payload types for which the all-zero bit pattern is *not* a value: an absent option still has to be representable
+#[repr(C)]
+#[derive(Clone, Copy, PartialEq, Eq, kani::Arbitrary)]
+pub enum NoZero {
+    Low = 1,
+    High = 2,
+}
+#[repr(C)]
+#[derive(Clone, Copy, PartialEq, Eq, kani::Arbitrary)]
+pub struct Tagged {
+    t: NoZero,
+    n: u16,
+}
+
 macro_rules! wire {
     ($name:ident, $t:ty, $e:ty) => {
         #[kani::proof]
@@ -87,6 +101,8 @@ wire!(wire_unit_unit, (), ());
 wire!(wire_pair_wide, Pair, Wide);
 wire!(wire_wide_unit, Wide, ());
 wire!(wire_bool_pair, bool, Pair);
+wire!(wire_nozero_tagged, NoZero, Tagged);
+wire!(wire_unit_nozero, (), NoZero);
 
 macro_rules! wire_opt {
     ($name:ident, $t:ty) => {
@@ -130,6 +146,12 @@ impl From<i64> for W64 { fn from(x: i64) -> W64 { W64(x as u64) } }
 impl From<bool> for W64 { fn from(x: bool) -> W64 { W64(x as u64) } }
 impl From<Pair> for W64 { fn from(x: Pair) -> W64 { W64(x.b as u64) } }
 impl From<()> for W64 { fn from(_: ()) -> W64 { W64(0) } }
+impl From<NoZero> for W64 { fn from(x: NoZero) -> W64 { W64(x as u64) } }
+impl From<Tagged> for W64 { fn from(x: Tagged) -> W64 { W64(x.n as u64) } }
+impl From<core::num::NonZeroU16> for W64 { fn from(x: core::num::NonZeroU16) -> W64 { W64(x.get() as u64) } }
+wire_opt!(wire_opt_nozero, NoZero);
+wire_opt!(wire_opt_tagged, Tagged);
+wire_opt!(wire_opt_nonzero_u16, core::num::NonZeroU16);
 wire_opt!(wire_opt_u8, u8);
 wire_opt!(wire_opt_u32, u32);
 wire_opt!(wire_opt_i64, i64);
